@@ -278,6 +278,7 @@ class IncrementalDecoder(codecs.IncrementalDecoder):
     def __init__(self, errors="strict", encoding=None, force=True):
         self.decoder = None
         self.encoding = encoding
+        self.given = encoding  # reset() returns to it
         self.force = force
         codecs.IncrementalDecoder.__init__(self, errors)
         # Store ``errors`` somewhere else,
@@ -337,6 +338,7 @@ class IncrementalDecoder(codecs.IncrementalDecoder):
     def reset(self):
         codecs.IncrementalDecoder.reset(self)
         self.decoder = None
+        self.encoding = self.given  # forget a detected encoding
         self.buffer = b""
         self.headerfixed = False
 
@@ -380,6 +382,7 @@ class IncrementalEncoder(codecs.IncrementalEncoder):
     def __init__(self, errors="strict", encoding=None):
         self.encoder = None
         self.encoding = encoding
+        self.given = encoding  # reset() returns to it
         codecs.IncrementalEncoder.__init__(self, errors)
         # Store ``errors`` somewhere else,
         # because we have to hide it in a property
@@ -431,6 +434,7 @@ class IncrementalEncoder(codecs.IncrementalEncoder):
     def reset(self):
         codecs.IncrementalEncoder.reset(self)
         self.encoder = None
+        self.encoding = self.given  # forget an encoding taken from the input
         self.buffer = ""
 
     def _geterrors(self):
